@@ -268,6 +268,7 @@ fn run_plain<K: HKey>(sid: &Value, cfg: &Cfg, ops: &[Value], sel0: usize, scratc
     let root = fresh_root(scratch);
     out.emit(&json!({"ev": "reset", "sid": sid, "cfg": cfg.to_json(), "mode": mode}));
     let mut st = Store::<K>::new(&root, cfg);
+    shim::install_monitor(&root); // no boundaries, only the watch for in-place writes under cas/ (if the shim is loaded)
     let r = st.exec(&json!({"op": "open"}), 0);
     out.emit(&json!({"ev": "op", "i": 0, "op": {"op": "open"}, "res": r, "obs": st.observe()}));
     for (i, op) in ops.iter().enumerate() {
